@@ -50,6 +50,10 @@ def cases(draw, cls, max_n=80, max_p=20):
         from hxv.lib import interlude
 
         case["interlude"] = dict(interlude(lambda a, b: draw(st.integers(a, b)), lambda xs: draw(st.sampled_from(xs))), at=draw(st.integers(1, 80)))
+    if draw(st.integers(0, 3)) == 0:
+        # a sibling of the same class and period on another input, told apart only by fullname_override, is
+        # calculated on the same candles first: its helper series must not be mistaken for the judged indicator's
+        case["sibling_input"] = draw(st.sampled_from(("high", "low", "open", "volume")))
     if cls == "VWMA":
         return case
     kind = draw(st.sampled_from(("price", "volume", "synthetic", "synthetic", "synthetic", "synthetic", "upstream", "upstream")))
@@ -127,6 +131,16 @@ def run_case(case) -> Result:
         return Result([], False, ["empty"])
     name, prep, xs = _setup(case)
     cfg = {"cls": cls, "kw": kw if cls == "VWMA" else dict(kw, input_value=name)}
+    if case.get("sibling_input") and cls != "VWMA":
+        labels.append("with_sibling")
+        prep0 = prep
+
+        def prep(candles):
+            if prep0:
+                prep0(candles)
+            sib = build_indicator({"cls": cls, "kw": dict(kw, input_value=case["sibling_input"])}, candles=candles, fullname_override="SIB")
+            sib.calculate()
+
     ind, v = nm.run_batch(cfg, rows, prep, inter=case.get("interlude"))
     if case.get("interlude"):
         labels.append("maintenance_interlude")
